@@ -283,10 +283,44 @@ pub fn build_store(kind: StoreKind, dir: &str) -> AnnotationStore {
     }
 }
 
+/// contents of the work directory (the files a stand-off store was loaded from and writes its members to)
+fn snapshot_files(dir: &str) -> std::collections::BTreeMap<String, String> {
+    let mut m = std::collections::BTreeMap::new();
+    if let Ok(rd) = std::fs::read_dir(dir) {
+        for e in rd.flatten() {
+            if let Ok(bytes) = std::fs::read(e.path()) {
+                m.insert(e.file_name().to_string_lossy().into_owned(), String::from_utf8_lossy(&bytes).into_owned());
+            }
+        }
+    }
+    m
+}
+
+/// The files expected after all readers have finished: the initial files, overlaid with what each reader writes when it
+/// runs alone on a fresh copy (serialising a store with a changed stand-off member rewrites that member's file).
+fn expected_files(kind: StoreKind, bodies: &[Body], dir: &str) -> std::collections::BTreeMap<String, String> {
+    let solodir = format!("{}-solo", dir);
+    let _ = build_store(kind, &solodir);
+    let initial = snapshot_files(&solodir);
+    let mut expected = initial.clone();
+    for b in bodies {
+        let store = build_store(kind, &solodir);
+        let _ = catch(|| b.run(&store));
+        for (name, content) in snapshot_files(&solodir) {
+            if initial.get(&name) != Some(&content) {
+                expected.insert(name, content);
+            }
+        }
+    }
+    let _ = std::fs::remove_dir_all(&solodir);
+    expected
+}
+
 // ---------------------------------------------------------------------------------------------
 // exploration
 
 pub struct ExploreStats {
+    pub expected_files: std::collections::BTreeMap<String, String>,
     pub schedules: u64,
     pub outcomes: std::collections::BTreeSet<u64>,
     pub max_yields: usize,
@@ -324,7 +358,7 @@ fn explore_rec(
     };
     stats.schedules += 1;
     stats.max_yields = stats.max_yields.max(x.yields_per_thread.iter().copied().max().unwrap_or(0));
-    check_execution(rep, kind, bodies, solo, &x, &store, stats);
+    check_execution(rep, kind, dir, bodies, solo, &x, &store, stats);
     // extend: alternatives at every later point within the preemption bound
     let mut preemptions = 0usize;
     let choices: Vec<usize> = x.points.iter().map(|p| p.chosen).collect();
@@ -346,10 +380,14 @@ fn explore_rec(
     }
 }
 
-fn check_execution(rep: &Reporter, kind: StoreKind, bodies: &[Body], solo: &[String], x: &Execution, store: &AnnotationStore, stats: &mut ExploreStats) {
+#[allow(clippy::too_many_arguments)]
+fn check_execution(rep: &Reporter, kind: StoreKind, dir: &str, bodies: &[Body], solo: &[String], x: &Execution, store: &AnnotationStore, stats: &mut ExploreStats) {
     let names: Vec<&str> = bodies.iter().map(|b| b.name()).collect();
     let case = || json!({"store": format!("{:?}", kind), "bodies": names, "schedule": schedule_json(x)});
     let combo = names.join("||");
+    // without a preemption the threads run one after the other: a failure there is not a race
+    let sched = if x.points.iter().any(|p| p.running_still_enabled && p.chosen != 0) { "preempted" } else { "sequential" };
+    let togglers = names.iter().filter(|n| n.ends_with("to_json_string")).count();
     let mut outcome_key = String::new();
     if x.deadlock {
         rep.fail(&format!("{:?}|{}|deadlock", kind, combo), x.points.len() as u64, || "no thread enabled although not all have finished".into(), case);
@@ -375,7 +413,7 @@ fn check_execution(rep: &Reporter, kind: StoreKind, bodies: &[Body], solo: &[Str
                     others.sort();
                     others.dedup();
                     rep.fail(
-                        &format!("{:?}|victim={}|{}|concurrent-toggler={}", kind, names[i], how, if others.iter().any(|o| o.ends_with("to_json_string")) { "yes" } else { "no" }),
+                        &format!("{:?}|victim={}|{}|concurrent-toggler={}|sched={}", kind, names[i], how, if others.iter().any(|o| o.ends_with("to_json_string")) { "yes" } else { "no" }, sched),
                         x.points.len() as u64,
                         || format!("thread {} returned a result different from running alone ({} vs {} bytes); schedule {:?}", names[i], s.len(), solo[i].len(), x.points.iter().map(|p| p.chosen).collect::<Vec<_>>()),
                         case,
@@ -384,13 +422,39 @@ fn check_execution(rep: &Reporter, kind: StoreKind, bodies: &[Body], solo: &[Str
             }
         }
     }
+    // (taken before the serialisation below, which may itself write stand-off members)
+    let files = snapshot_files(dir);
     // afterwards a single reader must again see the sequential result (no state left behind)
     let after = catch(|| Body::StoreJson.run(store));
-    let solo_store = catch(|| Body::StoreJson.run(&build_store(kind, &format!("{}-solo", "/verif/.work/c20"))));
+    let solo_store = catch(|| Body::StoreJson.run(&build_store(kind, &format!("{}-solo", dir))));
     if let (Ok(a), Ok(b)) = (&after, &solo_store) {
         outcome_key.push_str(&format!("A{:x}", fnv64(a.as_bytes())));
         if a != b {
-            rep.fail(&format!("{:?}|{}|after|store-serialisation-differs-afterwards", kind, combo), x.points.len() as u64, || "a store serialisation after all readers finished differs from the sequential one (state left behind)".into(), case);
+            rep.fail(&format!("{:?}|{}|after|store-serialisation-differs-afterwards|sched={}", kind, combo, sched), x.points.len() as u64, || "a store serialisation after all readers finished differs from the sequential one (state left behind)".into(), case);
+        }
+    }
+    // files: the readers together must leave on disk what they leave when each runs alone
+    if kind != StoreKind::Inline {
+        outcome_key.push_str(&format!("F{:x}", fnv64(format!("{:?}", files).as_bytes())));
+        if files != stats.expected_files {
+            let mut names: Vec<String> = files.keys().chain(stats.expected_files.keys()).filter(|n| files.get(*n) != stats.expected_files.get(*n)).map(|n| n.replace(|c: char| c.is_ascii_digit(), "N")).collect();
+            names.sort();
+            names.dedup();
+            rep.fail(
+                &format!("{:?}|after|files-differ-from-solo-runs:{}|concurrent-togglers={}|sched={}", kind, names.join(","), if togglers >= 2 { "yes" } else { "no" }, sched),
+                x.points.len() as u64,
+                || {
+                    let first = files.keys().chain(stats.expected_files.keys()).find(|n| files.get(*n) != stats.expected_files.get(*n)).cloned().unwrap_or_default();
+                    format!(
+                        "after all readers finished the files {:?} differ from what the readers leave behind when each runs alone on a fresh copy; {}: got {:?}, expected {:?}",
+                        names,
+                        first,
+                        files.get(&first).map(|c| c.chars().take(300).collect::<String>()),
+                        stats.expected_files.get(&first).map(|c| c.chars().take(300).collect::<String>())
+                    )
+                },
+                case,
+            );
         }
     }
     stats.outcomes.insert(fnv64(outcome_key.as_bytes()));
@@ -416,46 +480,98 @@ fn combos(tier: Tier) -> Vec<Vec<Body>> {
     v
 }
 
+struct JobResult {
+    per: Value,
+    schedules: u64,
+    outcomes: usize,
+    capped: bool,
+    max_yields: usize,
+    sample: Option<Value>,
+}
+
+/// one exploration: all schedules of one thread set on one store kind (independent of every other job: the scheduler
+/// state is reached through a thread-local of the managed threads, the work directory is private to the job)
+fn run_job(rep: &Reporter, kind: StoreKind, bodies: &[Body], dir: &str, bound: usize, cap: u64) -> JobResult {
+    // solo results on fresh copies of the same store
+    let solo: Vec<String> = bodies.iter().map(|b| b.run(&build_store(kind, dir))).collect();
+    // determinism: the default schedule twice must give identical observations
+    let s1 = build_store(kind, dir);
+    let x1 = run_schedule(&s1, bodies, &[]).expect("default schedule");
+    let s2 = build_store(kind, dir);
+    let x2 = run_schedule(&s2, bodies, &[]).expect("default schedule");
+    if x1.results != x2.results || x1.points.len() != x2.points.len() {
+        println!("MACHINERY: replaying the default schedule twice gave different observations for {:?} {:?}", kind, bodies);
+        std::process::exit(2);
+    }
+    let mut stats = ExploreStats { expected_files: expected_files(kind, &bodies, &dir), schedules: 0, outcomes: Default::default(), max_yields: 0, capped: false };
+    // iterative preemption bounding: the final bound subsumes the lower ones; run it directly (the search is simplest-first)
+    explore_rec(rep, kind, dir, bodies, &solo, bound, vec![], &mut stats, cap);
+    let _ = std::fs::remove_dir_all(dir);
+    let _ = std::fs::remove_dir_all(format!("{}-solo", dir));
+    let names: Vec<&str> = bodies.iter().map(|b| b.name()).collect();
+    JobResult {
+        per: json!({"store": format!("{:?}", kind), "bodies": names, "schedules": stats.schedules, "distinct_outcomes": stats.outcomes.len(), "max_yield_points_per_thread": stats.max_yields, "capped": stats.capped}),
+        schedules: stats.schedules,
+        outcomes: stats.outcomes.len(),
+        capped: stats.capped,
+        max_yields: stats.max_yields,
+        sample: if stats.schedules > 3 {
+            Some(json!({"store": format!("{:?}", kind), "bodies": names, "default_schedule_points": x1.points.iter().map(|p| json!({"enabled": p.enabled, "sites": p.sites})).collect::<Vec<_>>()}))
+        } else {
+            None
+        },
+    }
+}
+
 pub fn run(rep: &Reporter) -> Coverage {
     stam::verif::set_yield_callback(Some(yield_cb));
-    let dir = format!("/verif/.work/c20-{}", std::process::id());
+    let dir = crate::util::work_dir("c20");
     let bound = rep.tier.pick(2, 3);
     let cap: u64 = rep.tier.pick(20_000, 400_000);
+    let mut jobs: Vec<(StoreKind, Vec<Body>)> = Vec::new();
+    for kind in [StoreKind::Inline, StoreKind::Standoff, StoreKind::StandoffChanged] {
+        for bodies in combos(rep.tier) {
+            jobs.push((kind, bodies));
+        }
+    }
+    // explorations are independent; run them on plain OS threads (not on the rayon pool, which the query+parallel body
+    // needs for itself: a pool whose workers all wait on a baton would never run that body's tasks)
+    let next = std::sync::atomic::AtomicUsize::new(0);
+    let results: Mutex<Vec<Option<JobResult>>> = Mutex::new((0..jobs.len()).map(|_| None).collect());
+    let nthreads = std::thread::available_parallelism().map(|n| n.get()).unwrap_or(4).min(jobs.len()).max(1);
+    std::thread::scope(|scope| {
+        for _ in 0..nthreads {
+            scope.spawn(|| loop {
+                let i = next.fetch_add(1, std::sync::atomic::Ordering::SeqCst);
+                if i >= jobs.len() {
+                    break;
+                }
+                let (kind, bodies) = &jobs[i];
+                let r = run_job(rep, *kind, bodies, &format!("{}-j{}", dir, i), bound, cap);
+                results.lock().unwrap()[i] = Some(r);
+            });
+        }
+    });
     let mut total = 0u64;
     let mut outcomes_total = 0usize;
     let mut per = Vec::new();
     let mut capped_any = false;
     let mut max_yields = 0;
     let mut samples = Vec::new();
-    for kind in [StoreKind::Inline, StoreKind::Standoff, StoreKind::StandoffChanged] {
-        for bodies in combos(rep.tier) {
-            // solo results on fresh copies of the same store
-            let solo: Vec<String> = bodies.iter().map(|b| b.run(&build_store(kind, &dir))).collect();
-            // determinism: the default schedule twice must give identical observations
-            let s1 = build_store(kind, &dir);
-            let x1 = run_schedule(&s1, &bodies, &[]).expect("default schedule");
-            let s2 = build_store(kind, &dir);
-            let x2 = run_schedule(&s2, &bodies, &[]).expect("default schedule");
-            if x1.results != x2.results || x1.points.len() != x2.points.len() {
-                println!("MACHINERY: replaying the default schedule twice gave different observations for {:?} {:?}", kind, bodies);
-                std::process::exit(2);
+    for r in results.into_inner().unwrap().into_iter().flatten() {
+        total += r.schedules;
+        outcomes_total += r.outcomes;
+        capped_any |= r.capped;
+        max_yields = max_yields.max(r.max_yields);
+        if samples.len() < 4 {
+            if let Some(s) = r.sample {
+                samples.push(s);
             }
-            let mut stats = ExploreStats { schedules: 0, outcomes: Default::default(), max_yields: 0, capped: false };
-            // iterative preemption bounding: the final bound subsumes the lower ones; run it directly (the search is simplest-first)
-            explore_rec(rep, kind, &dir, &bodies, &solo, bound, vec![], &mut stats, cap);
-            total += stats.schedules;
-            outcomes_total += stats.outcomes.len();
-            capped_any |= stats.capped;
-            max_yields = max_yields.max(stats.max_yields);
-            if samples.len() < 4 && stats.schedules > 3 {
-                samples.push(json!({"store": format!("{:?}", kind), "bodies": bodies.iter().map(|b| b.name()).collect::<Vec<_>>(), "default_schedule_points": x1.points.iter().map(|p| json!({"enabled": p.enabled, "sites": p.sites})).collect::<Vec<_>>()}));
-            }
-            per.push(json!({"store": format!("{:?}", kind), "bodies": bodies.iter().map(|b| b.name()).collect::<Vec<_>>(), "schedules": stats.schedules, "distinct_outcomes": stats.outcomes.len(), "max_yield_points_per_thread": stats.max_yields, "capped": stats.capped}));
         }
+        per.push(r.per);
     }
     stam::verif::set_yield_callback(None);
     let _ = std::fs::remove_dir_all(&dir);
-    let _ = std::fs::remove_dir_all("/verif/.work/c20-solo");
     let mut cov = Coverage::default();
     cov.states = outcomes_total as u64;
     cov.transitions = total;
@@ -487,7 +603,7 @@ pub fn replay(rep: &Reporter, case: &Value) {
     let all = [Body::StoreJson, Body::DatasetJson, Body::ResourceJson, Body::QueryParallel, Body::Dataset2Json];
     let bodies: Vec<Body> = case["bodies"].as_array().map(|a| a.iter().filter_map(|n| all.iter().find(|b| Some(b.name()) == n.as_str()).copied()).collect()).unwrap_or_default();
     let prefix: Vec<usize> = case["schedule"].as_array().map(|a| a.iter().filter_map(|x| x.as_u64().map(|v| v as usize)).collect()).unwrap_or_default();
-    let dir = format!("/verif/.work/c20-{}", std::process::id());
+    let dir = crate::util::work_dir("c20");
     println!("replay C20: store={:?} bodies={:?} schedule={:?}", kind, bodies.iter().map(|b| b.name()).collect::<Vec<_>>(), prefix);
     let solo: Vec<String> = bodies.iter().map(|b| b.run(&build_store(kind, &dir))).collect();
     let store = build_store(kind, &dir);
@@ -496,8 +612,9 @@ pub fn replay(rep: &Reporter, case: &Value) {
             for (i, p) in x.points.iter().enumerate() {
                 println!("  point {}: enabled {:?} at {:?} -> chose thread {}", i, p.enabled, p.sites, p.enabled[p.chosen]);
             }
-            let mut stats = ExploreStats { schedules: 0, outcomes: Default::default(), max_yields: 0, capped: false };
-            check_execution(rep, kind, &bodies, &solo, &x, &store, &mut stats);
+            let mut stats = ExploreStats { expected_files: expected_files(kind, &bodies, &dir), schedules: 0, outcomes: Default::default(), max_yields: 0, capped: false };
+            check_execution(rep, kind, &dir, &bodies, &solo, &x, &store, &mut stats);
+            let _ = std::fs::remove_dir_all(format!("{}-solo", dir));
         }
         Err(d) => println!("  {}", d),
     }
